@@ -51,6 +51,10 @@ def encodings(ev):
         out.append(('intersection-of-aliases', 'type E0 = {{ %s }};\ninterface E1 {{ %s }}\n' % (sig(ev[0]), rest), 'E0 & E1', ''))
         out.append(('union-of-interfaces', 'interface E0 {{ %s }}\ninterface E1 {{ %s }}\n' % (sig(ev[0]), rest), 'E0 | E1', ''))
         out.append(('merged-interfaces', 'interface Em {{ %s }}\ninterface Em {{ %s }}\n' % (sig(ev[0]), rest), 'Em', ''))
+        # declaration merging also merges the heritage clauses, whichever declaration carries them
+        out.append(('merged-extends-later', 'interface B0 {{ %s }}\ninterface Em {{ %s }}\ninterface Em extends B0 {{}}\n' % (sig(ev[0]), rest), 'Em', ''))
+        out.append(('merged-extends-first', 'interface B0 {{ %s }}\ninterface Em extends B0 {{}}\ninterface Em {{ %s }}\n' % (sig(ev[0]), rest), 'Em', ''))
+        out.append(('merged-extends-both', 'interface B0 {{ %s }}\ninterface B1 {{ %s }}\ninterface Em extends B0 {{}}\ninterface Em extends B1 {{}}\n' % (sig(ev[0]), rest), 'Em', ''))
         out.append(('alias-of-interface', 'interface E0 {{ %s; %s }}\ntype Em = E0;\n' % (sig(ev[0]), rest), 'Em', ''))
         out.append(('paren-union', '', '(((e: \'%s\') => void) | (%s))' % (ev[0], ' | '.join("((e: '%s') => void)" % n for n in ev[1:])), ''))
     out.append(('after-interface', '', 'Em', 'interface Em {{ ' + '; '.join(sig(n) for n in ev) + ' }}\n'))
